@@ -53,7 +53,7 @@ def c09(ctx):
     ctx.rule("PANIC", PANIC_TEXT)
     entries = inv.entries_exported("msi") + [f for f in prog.fns.values() if f.crate == "msi_ffi" and f.kind == "Fn"]
     n = inv.run(ctx, "PANIC", entries, label="the public API (open, reads, mutators+flush, ffi exports)")
-    ctx.floor("PANIC", "potential panic sites reachable from the public API", n, 120)
+    ctx.floor("PANIC", "potential panic sites reachable from the public API", n, 60)
     from .rules import alloc, dml
     alloc.run(ctx, entries)
     dml.cap_panic_guard(ctx)
@@ -63,6 +63,9 @@ def c09(ctx):
     from .rules import codepage, gates
     codepage.run(ctx)
     gates.join_shape(ctx)
+    # ... and the justification of the row[name] lookups in Ast::eval on every condition's column names having been validated
+    gates.gate_eval(ctx)
+    gates.join_more(ctx)
     ctx.assume(EXT_ASSUME)
     return ctx.finish(explanation="panic-edge inventory over MIR of msi and msi_ffi, reachability from every exported function; "
                       "each site discharged by a guard rule, justified, or reported; sized allocations bounded (ALLOC-BOUND); every loop cycle consumes from a finite "
@@ -113,7 +116,7 @@ def c14(ctx):
     codepage.flow_rules(ctx)
     n = panic_module(ctx, "PANIC(codepage)", ("src/internal/codepage.rs",),
                      lambda f: f.file == "src/internal/codepage.rs" and f.exported, "CodePage::{encode,decode,id,from_id,name}")
-    ctx.floor("PANIC(codepage)", "potential panic sites in codepage.rs", n, 5)
+    ctx.floor("PANIC(codepage)", "potential panic sites in codepage.rs", n, 3)
     return ctx.finish(explanation="match tables of CodePage::{id,from_id,encoding} recovered from MIR and compared with each other and "
                       "with a frozen Windows reference; dominance check of the ASCII gate; constants of the replacement path")
 
@@ -124,7 +127,7 @@ def c17(ctx):
     language.run(ctx)
     n = panic_module(ctx, "PANIC(language)", ("src/internal/language.rs",),
                      lambda f: f.file == "src/internal/language.rs" and f.exported, "Language::{from_code,code,from_tag,tag}")
-    ctx.floor("PANIC(language)", "potential panic sites in language.rs", n, 5)
+    ctx.floor("PANIC(language)", "potential panic sites in language.rs", n, 3)
     return ctx.finish(explanation="conditions on the LANGUAGES literal table (read from HIR) required by the lookups the MIR of tag()/from_tag() "
                       "actually performs; constants of the fallback paths; frozen Windows reference pairs")
 
@@ -147,7 +150,7 @@ def c13(ctx):
     entries = [f for f in prog.fns.values() if f.crate == "msi" and f.file == "src/internal/expr.rs" and f.exported]
     n = inv.run(ctx, "PANIC(eval)", entries, only=lambda f: f.file in ("src/internal/expr.rs", "src/internal/value.rs"),
                 label="Expr constructors (constant folding) and Expr::eval")
-    ctx.floor("PANIC(eval)", "potential panic sites in expr.rs reachable from Expr's public API", n, 2)
+    ctx.floor("PANIC(eval)", "potential panic sites in expr.rs reachable from Expr's public API", n, 1)
     ctx.floor("PANIC(eval)", "public Expr entry points", len(entries), 25)
     expr.run_c13(ctx)
     expr.op_typed(ctx)
@@ -167,7 +170,7 @@ def c18(ctx):
                      lambda f: (f.file == "src/internal/timestamp.rs" and f.kind != "Closure") or
                      re.search(r"SummaryInfo::(set_creation_time|set_creation_time_to_now|creation_time)$", f.path) is not None,
                      "SummaryInfo::{set_creation_time, set_creation_time_to_now, creation_time} and Timestamp::*")
-    ctx.floor("PANIC(timestamp)", "potential panic sites in timestamp.rs", n, 6)
+    ctx.floor("PANIC(timestamp)", "potential panic sites in timestamp.rs", n, 3)
     return ctx.finish(explanation="panic-edge inventory of timestamp.rs (saturate instead of panic) plus the constants and operation shape of both "
                       "conversions read from MIR; drift, idempotence and monotonicity are not decided")
 
@@ -187,7 +190,7 @@ def c12(ctx):
     entries = [prog.fn("msi::internal::query::Select::exec"), prog.fn("msi::internal::package::Package::<F>::select_rows")]
     n = inv.run(ctx, "PANIC(select)", entries, only=lambda f: f.file in ("src/internal/query.rs", "src/internal/table.rs", "src/internal/column.rs"),
                 label="Select::exec (joins, filters, projections)")
-    ctx.floor("PANIC(select)", "potential panic sites on the select path", n, 8)
+    ctx.floor("PANIC(select)", "potential panic sites on the select path", n, 4)
     ctx.assume(EXT_ASSUME)
     return ctx.finish(explanation="dominance of name validation over every internal expression evaluation; sibling agreement of the two join arms; "
                       "panic inventory of the select path. Which rows a join yields is not decided")
@@ -200,6 +203,8 @@ def c11(ctx):
     streams.run(ctx)
     streams.name4(ctx)
     streams.b64_tables(ctx)
+    from .rules import errs as _errs
+    _errs.io_exact(ctx)
     inv = inventory(prog)
     ctx.rule("PANIC(streams)", PANIC_TEXT)
     pat = re.compile(r"Package::<F>::(has_stream|streams|read_stream|write_stream|remove_stream|remove_digital_signature|has_digital_signature)$|"
@@ -207,7 +212,7 @@ def c11(ctx):
     entries = [f for f in prog.fns.values() if f.crate == "msi" and pat.search(f.name) and f.kind != "Closure"]
     n = inv.run(ctx, "PANIC(streams)", entries, only=lambda f: f.file in ("src/internal/streamname.rs", "src/internal/stream.rs", "src/internal/package.rs"),
                 label="the stream API")
-    ctx.floor("PANIC(streams)", "potential panic sites on the stream API", n, 25)
+    ctx.floor("PANIC(streams)", "potential panic sites on the stream API", n, 12)
     ctx.floor("PANIC(streams)", "stream API entry points", len(entries), 12)
     ctx.assume(EXT_ASSUME)
     ctx.note("NOT decided: injectivity of streamname::encode over accepted names, non-aliasing under the container's name comparison, content round-trip")
@@ -244,6 +249,13 @@ def c01(ctx):
     codec.pool_codec(ctx)
     codec.pool_load(ctx)
     codec.val_conv(ctx)
+    from .rules import propset as _propset, codepage as _codepage
+    _propset.run(ctx)
+    _propset.summary_ids(ctx)
+    _propset.prop_all(ctx)
+    _codepage.run(ctx)
+    from .rules import errs as _errs
+    _errs.io_exact(ctx)
     from .rules import schema, streams
     schema.table_bits(ctx)
     schema.bits_disjoint(ctx)
@@ -261,6 +273,10 @@ def c10(ctx):
     from .rules import propset
     propset.run(ctx)
     propset.summary_ids(ctx)
+    propset.prop_all(ctx)
+    propset.lang_list(ctx)
+    from .rules import errs as _errs
+    _errs.io_exact(ctx)
     from .rules import flush, codepage
     flush.dirty2(ctx)
     flush.close2(ctx)
@@ -270,7 +286,7 @@ def c10(ctx):
     n = panic_module(ctx, "PANIC(summary)", ("src/internal/propset.rs", "src/internal/summary.rs"),
                      lambda f: f.file in ("src/internal/summary.rs", "src/internal/propset.rs") and f.kind != "Closure",
                      "SummaryInfo::* and PropertySet::{read,write,set,..}")
-    ctx.floor("PANIC(summary)", "potential panic sites in propset.rs / summary.rs", n, 15)
+    ctx.floor("PANIC(summary)", "potential panic sites in propset.rs / summary.rs", n, 8)
     return ctx.finish(explanation="type-number and size tables of the property-value codec recovered from MIR and compared pairwise and with the format; "
                       "information-flow rule on what is measured; conversion rule for the stored code page id; header byte counting; panic inventory. "
                       "Getter/setter value equality after reopen is not decided")
@@ -286,9 +302,12 @@ def c06(ctx):
     schema.table_cat(ctx)
     schema.builder_pass(ctx)
     schema.gate_opt(ctx)
-    from .rules import flush, dml
+    schema.reg_order(ctx)
+    from .rules import flush, dml, eam as _eam, codec as _codec
     flush.dirty1(ctx)
     dml.limit_w(ctx)
+    _eam.run(ctx)
+    _codec.pool_codec(ctx)
     return ctx.finish(explanation="pack/unpack constants of the column type word, disjointness, attribute/position symmetry of the _Validation row between writer and reader, "
                       "separator guard, category spelling tables. Equality of the reopened schema for all column lists is not decided")
 
@@ -307,7 +326,15 @@ def c02(ctx):
     schema.table_clsid(ctx)
     from .rules import propset, streams, flush
     propset.run(ctx)
+    propset.cp_thread(ctx)
+    propset.prop_all(ctx)
+    from .rules import errs as _errs
+    _errs.io_exact(ctx)
     streams.b64_tables(ctx)
+    ctx.rule("NAME-1", "streamname::is_valid admits exactly the names whose encoded form has at most 31 UTF-16 units (table names validated with the marker character counted)")
+    streams.name_limit(ctx, "NAME-1")
+    from .rules import codepage as _codepage
+    _codepage.run(ctx)
     flush.dirty1(ctx)
     from .rules import dml
     dml.limits(ctx)
@@ -322,14 +349,15 @@ def c07(ctx):
     dml.gate2(ctx)
     validity.info_valid(ctx)
     validity.cat_arms(ctx)
-    from .rules import codec as _codec
+    from .rules import codec as _codec, schema as _schema
     _codec.val_conv(ctx)
+    _schema.bits_disjoint(ctx)
     prog = ctx.prog
     inv = inventory(prog)
     ctx.rule("PANIC(validators)", PANIC_TEXT)
     entries = [prog.fn("msi::internal::category::Category::validate"), prog.fn("msi::internal::column::Column::is_valid_value")]
     n = inv.run(ctx, "PANIC(validators)", entries, label="Category::validate and Column::is_valid_value")
-    ctx.floor("PANIC(validators)", "potential panic sites in the validators", n, 3)
+    ctx.floor("PANIC(validators)", "potential panic sites in the validators", n, 2)
     ctx.assume(EXT_ASSUME)
     return ctx.finish(explanation="the gate exists, covers the whole batch, precedes every mutation; its rejections are exactly the documented ones; the validator reads "
                       "every constraint field with the documented comparisons; each named category has its own arm of the documented shape; panic inventory of the "
@@ -349,9 +377,12 @@ def c05(ctx):
     dml.key_set(ctx)
     dml.del_only_retain(ctx)
     dml.pairs(ctx)
-    from .rules import flush, codec
+    from .rules import flush, codec, codepage as _codepage
     flush.dirty1(ctx)
+    flush.dirty2(ctx)
     codec.pool_codec(ctx)
+    codec.codec_e(ctx)
+    _codepage.flow_rules(ctx)
     schema.ins1(ctx, fns=("msi::internal::query::Insert::exec",), floor=3)
     return ctx.finish(explanation="necessary conditions for unique, ordered keys and valid cells: key awareness of every function that creates cells and rewrites rows, "
                       "duplicate tests before the keyed inserts, validation before creation, key-ordered emission. The invariant over all histories is not decided")
@@ -362,6 +393,7 @@ def c08(ctx):
     from .rules import dml, codec, flush
     dml.pairs(ctx)
     dml.rows_loaded(ctx)
+    dml.key_set(ctx)
     dml.cat_sym(ctx)
     flush.dirty1(ctx)
     flush.dirty2(ctx)
@@ -398,7 +430,7 @@ def c20(ctx):
     entries = [prog.fn("msi::internal::package::Package::<F>::" + n) for n in ("insert_rows", "update_rows", "delete_rows", "create_table", "drop_table", "write_stream")]
     n = inv.run(ctx, "PANIC(capacity)", entries, only=lambda f: f.file in ("src/internal/stringpool.rs", "src/internal/query.rs", "src/internal/table.rs", "src/internal/value.rs"),
                 label="insert_rows / update_rows / create_table (capacity limits)")
-    ctx.floor("PANIC(capacity)", "potential panic sites on the mutating paths", n, 20)
+    ctx.floor("PANIC(capacity)", "potential panic sites on the mutating paths", n, 10)
     ctx.assume(EXT_ASSUME)
     return ctx.finish(explanation="limits enforced on both sides: reader bounds mirrored by writer-side argument errors before mutation, column-count limits, catalog width "
                       "disagreement covered by pre-validation, no error after mutation, and the panic inventory of the mutating paths (the deliberate capacity panics of "
@@ -417,7 +449,10 @@ def c03(ctx):
     dml.limits(ctx)
     dml.rows_loaded(ctx)
     dml.upd_align(ctx)
-    from .rules import flush
+    from .rules import flush, codec as _codec, expr as _expr
+    eam.run(ctx)
+    _codec.codec_e(ctx)
+    _expr.run_c13(ctx)
     flush.dirty1(ctx)
     flush.dirty2(ctx)
     ctx.note("NOT decided: which rows a predicate selects, the values of updated cells, equality with a relational model over histories. Only the structural necessary "
